@@ -14,8 +14,10 @@ structure Flags (l : Life) : Prop where
   inc : l.inClose = true → l.closed = true
   tab : l.tablesCleared = true → l.cleaned = true
 
-theorem flags_init : Flags Life.init := by
-  constructor <;> simp [Life.init]
+theorem flags_initWith (hr : Bool) : Flags (Life.initWith hr) := by
+  constructor <;> simp [Life.initWith]
+
+theorem flags_init : Flags Life.init := flags_initWith false
 
 theorem cleanup_flags (l : Life) (hhook : l.hookRuns = if l.cleaned then 1 else 0)
     (htab : l.cleaned = true → l.tablesCleared = true) :
@@ -60,11 +62,16 @@ theorem finishClose_flags (r : TryRes) (l : Life) (hhook : l.hookRuns = if l.cle
   cases b with
   | true => exact ⟨flags_of_cleaned _ h1 h2 h3 h4 h5 (fun _ => h2), h1, h2, rfl, h5, h4, h3⟩
   | false =>
-    cases r with
-    | sent => exact ⟨flags_of_cleaned _ h1 h2 h3 h4 h5 (fun _ => h2), h1, h2, rfl, h5, h4, h3⟩
-    | eof => exact ⟨flags_of_cleaned _ h1 h2 h3 h4 h5 (fun _ => h2), h1, h2, rfl, h5, h4, h3⟩
-    | hookRaised c =>
-      cases c <;> exact ⟨flags_of_cleaned _ h1 h2 h3 h4 h5 (fun _ => h2), h1, h2, rfl, h5, h4, h3⟩
+    by_cases hk : l.hookRaises = true
+    · simp only [hk, if_true]
+      refine ⟨flags_of_cleaned _ h1 h2 h3 h4 h5 (fun _ => h2), h1, h2, ?_, h5, h4, h3⟩
+      first | rfl | trivial
+    · simp only [hk, Bool.false_eq_true, if_false]
+      cases r with
+      | sent => exact ⟨flags_of_cleaned _ h1 h2 h3 h4 h5 (fun _ => h2), h1, h2, rfl, h5, h4, h3⟩
+      | eof => exact ⟨flags_of_cleaned _ h1 h2 h3 h4 h5 (fun _ => h2), h1, h2, rfl, h5, h4, h3⟩
+      | hookRaised c =>
+        cases c <;> exact ⟨flags_of_cleaned _ h1 h2 h3 h4 h5 (fun _ => h2), h1, h2, rfl, h5, h4, h3⟩
 
 theorem finishClose_lists (r : TryRes) (l : Life) :
     (finishClose r l).1.outcomes = l.outcomes ∧ (finishClose r l).1.fromPeer = l.fromPeer
@@ -77,10 +84,13 @@ theorem finishClose_lists (r : TryRes) (l : Life) :
   cases b with
   | true => simpa using hl
   | false =>
-    cases r with
-    | sent => simpa using hl
-    | eof => simpa using hl
-    | hookRaised c => cases c <;> simpa using hl
+    by_cases hk : l.hookRaises = true
+    · simpa [hk] using hl
+    · simp only [hk, if_false, Bool.false_eq_true]
+      cases r with
+      | sent => simpa using hl
+      | eof => simpa using hl
+      | hookRaised c => cases c <;> simpa using hl
 
 /-- a `close()` the connection calls itself: afterwards the side is closed; outside another `close()` call it
 is also cleaned up -/
@@ -419,7 +429,10 @@ structure Inv (l : Life) : Prop where
   flags : Flags l
   vals : Vals l
 
-theorem inv_init : Inv Life.init := ⟨flags_init, by intro s v hm; simp [Life.init] at hm⟩
+theorem inv_initWith (hr : Bool) : Inv (Life.initWith hr) :=
+  ⟨flags_initWith hr, by intro s v hm; simp [Life.initWith] at hm⟩
+
+theorem inv_init : Inv Life.init := inv_initWith false
 
 theorem step_inv (l l' : Life) (e : Ev) (hs : step l e = some l') (h : Inv l) : Inv l' :=
   ⟨step_flags l l' e hs h.flags, step_vals l l' e hs h.vals⟩
@@ -435,11 +448,12 @@ theorem run_inv (es : List Ev) : ∀ (l l' : Life), run l es = some l' → Inv l
       exact ih l1 l' h (step_inv l l1 e hl1 hi)
     · cases h
 
-def Reach (l : Life) : Prop := ∃ es, run Life.init es = some l
+/-- reachable from the initial state, whether this side's disconnect hook returns or raises -/
+def Reach (l : Life) : Prop := ∃ hookRaises es, run (Life.initWith hookRaises) es = some l
 
 theorem Reach.inv {l : Life} (h : Reach l) : Inv l := by
-  obtain ⟨es, hr⟩ := h
-  exact run_inv es _ _ hr inv_init
+  obtain ⟨hk, es, hr⟩ := h
+  exact run_inv es _ _ hr (inv_initWith hk)
 
 /-! ### nobody stays blocked -/
 
@@ -594,8 +608,8 @@ structure Clean (l : Life) : Prop where
   channel : l.chanClosed = true
 
 theorem reach_step {l l' : Life} {e : Ev} (h : Reach l) (hs : step l e = some l') : Reach l' := by
-  obtain ⟨es, hr⟩ := h
-  refine ⟨es ++ [e], ?_⟩
+  obtain ⟨hk, es, hr⟩ := h
+  refine ⟨hk, es ++ [e], ?_⟩
   have key : ∀ (es : List Ev) (t : Life), run t es = some l → run t (es ++ [e]) = some l' := by
     intro es
     induction es with
